@@ -77,6 +77,13 @@ def cases(ctx):
             "cases_as": rng.choice(["list", "list", "tuple", "iter", "generator", "zip"]),
         }
         yield c
+    # every kind of result on a case set that certainly leaves slots un-requested (the diagonal of a 3 x 3 grid), through
+    # both entry points: the placeholder of each kind is judged whatever the random draws above happened to cover
+    for k_, kind_ in enumerate(KINDS):
+        for entry_ in ("combo_runner", "case_runner"):
+            yield {"entry": entry_, "names": ["p", "q"], "cases": [{"p": j, "q": 10 * j} for j in range(3)], "sub": [], "kind": kind_,
+                   "split": False, "flat": entry_ == "case_runner", "spelling": "dict", "shuffle": [False, True][k_ % 2], "constants": {},
+                   "keyorder_seed": k_, "single_dict": False, "cases_as": "list", "diag": True}
     # LONG case lists crossed with a sub-grid (600-1300 settings), sequentially and through a pool of threads: whatever
     # windowing a run strategy applies to long task lists, every requested slot gets its own result
     for i in range(ctx.pick(6, 24)):
